@@ -65,4 +65,15 @@ def LockSys.run (s : LockSys) : List Nat → LockSys
   | [] => s
   | t :: ts => LockSys.run (s.step t) ts
 
+/-! ### which storages get a mutex at all (`detail::mutex_for`, `is_thread_safe_allocator`, `allocator_traits::is_stateful`) -/
+
+/-- `allocator_traits<A>::is_stateful`: the allocator's own typedef if it has one, otherwise "not an empty class" -/
+def isStateful (declared : Option Bool) (empty : Bool) : Bool := declared.getD (!empty)
+
+/-- `is_thread_safe_allocator<A>` (unspecialised): exactly the stateless allocators -/
+def isThreadSafe (declared : Option Bool) (empty : Bool) : Bool := !isStateful declared empty
+
+/-- `detail::mutex_for<A, Mutex>` is `Mutex` (and not `no_mutex`) unless the allocator is thread safe -/
+def takesMutex (declared : Option Bool) (empty : Bool) : Bool := !isThreadSafe declared empty
+
 end MemVerif.Model
